@@ -419,6 +419,13 @@ def rules(rep, m):
             r5.ok()
 
 
+    # R-C06-6 ------------------------------------------------------------
+    rs = rep.rule("R-C06-6", "a guard's waiting list delivers the waiter the comparator puts first: one round of the heap's sift loops keeps the heap order for every arrangement of "
+                  "children and every order of the tags involved (shared with R-C02-8)", floor=6)
+    from . import siftrules
+    siftrules.check_sifts(rep, rs, m)
+
+
 def run(tier="quick"):
     models = common.load_models(tier)
     rep = Report(PID, tier, models[0])
@@ -426,7 +433,7 @@ def run(tier="quick"):
     rep.assumptions = ["sort keys are not NaN (times are asserted ordered against the clock)",
                        "keys are distinct within one waiting list (process addresses)",
                        "sift-up/sift-down index arithmetic of the heap is not decided here (see C02)"]
-    rep.not_decided = ["heap sift correctness (index arithmetic)",
+    rep.not_decided = ["termination of the sift loops (one round is decided, R-C06-6)",
                        "service order among waiters of different containers"]
     for m in models:
         rep.configs.append(m.config)
